@@ -228,3 +228,40 @@ class padding_render_fixed:
         for label, want in _padding_natural(old, a.focus):
             yield "canvas-" + label, want((r.ncols, r.nrows))
         yield "cursor-inside", canvas_wf(r)
+
+
+@contract(PA + "Padding.render", property="C01", alias="clip", replayable=False, inline=PINL)
+class padding_render_clip:
+    """render((maxcol,)) of a 'clip' Padding (FLOW only, says sizing()): the child at its natural size, cut or padded to
+    exactly maxcol columns; as many rows as rows((maxcol,)) reports -- the child's natural height."""
+    self_shape = PADDING
+    params = dict(size=Tup(Int), focus=Bool)
+    result = CCANVAS
+    raises = ()
+
+    def requires(s, a):
+        return both(padding_wf(s), size_ok(a.size), a.size[0] >= 1, s._width_type == "clip")
+
+    def ensures(old, s, a, r):
+        W = PROTOCOLS["Widget"]
+        cw, ch = W.call_quiet(cur(), old._original_widget, "pack", dict(size=(), focus=a.focus))
+        yield "cols-as-asked", r.ncols == a.size[0]
+        yield "rows-are-the-childs-natural-height", r.nrows == ch
+        yield "cursor-inside", canvas_wf(r)  # (rows((maxcol,)) reports the same height: padding_rows_clip below)
+
+
+@contract(PA + "Padding.rows", property="C01", alias="clip", replayable=False, inline=PINL)
+class padding_rows_clip:
+    """(contracts/C09_geometry.py: padding_rows covers the other width types)"""
+    self_shape = PADDING
+    params = dict(size=Tup(Int), focus=Bool)
+    result = Int
+    raises = ()
+
+    def requires(s, a):
+        return both(padding_wf(s), size_ok(a.size), a.size[0] >= 1, s._width_type == "clip")
+
+    def ensures(old, s, a, result):
+        W = PROTOCOLS["Widget"]
+        cw, ch = W.call_quiet(cur(), old._original_widget, "pack", dict(size=(), focus=a.focus))
+        yield "the-childs-natural-height", result == ch
